@@ -280,6 +280,28 @@ Check C07_comparators :
   (pcmp_agrees (Some control_order) (Some control_cmp) /\ para_cmp_consistent (Some control_cmp)).
 Print Assumptions C07_comparators.
 
+(* 8. The control-file wrappers.  Control::wrap_and_sort IS the deb822-level reformatting in control
+      order, without a field sort, with the control formatter (Uploaders: split at ',', trim, join
+      with ",\n"; the twelve relationship fields: the relations cone's formatter r; others: as
+      they are) -- so C07_formatter / C07_formatter_idem speak about it wherever ctl_fmt r is shaped.
+      The relations formatter is a parameter; when it panics (format_field unwraps the parse of a
+      value the relations reader rejects) so does the wrapper. *)
+Theorem C07_control : forall c r t,
+  control_ws fixed (fun x => Ok (r x)) (c_ind c) (c_iel c) (c_mll c) t
+  = std_ws fixed c (Some control_order) None (Some (pure_fmt (ctl_fmt r))) t.
+Proof. exact control_ws_is_std. Qed.
+Check C07_control : forall c r t,
+  control_ws fixed (fun x => Ok (r x)) (c_ind c) (c_iel c) (c_mll c) t
+  = std_ws fixed c (Some control_order) None (Some (pure_fmt (ctl_fmt r))) t.
+Print Assumptions C07_control.
+
+Theorem C07_control_unparsable_relation_panics :
+  control_ws fixed (fun _ => Panic 20) (Spaces 1) false None (tree_of WC.d_bad_relation) = Panic 20.
+Proof. exact control_unparsable_relation_panics. Qed.
+Check C07_control_unparsable_relation_panics :
+  control_ws fixed (fun _ => Panic 20) (Spaces 1) false None (tree_of WC.d_bad_relation) = Panic 20.
+Print Assumptions C07_control_unparsable_relation_panics.
+
 (* ---------------------------------------------------------------- non-vacuity *)
 Module Examples.
   Import Coq.Strings.String.
